@@ -217,8 +217,11 @@ class Inventory:
 
     def _written_between(self, g, place, from_block, to_block):
         """some write to `place` lies on a path from from_block to to_block"""
+        # a path that passes through from_block again re-takes the length, so only paths avoiding from_block count
+        # (otherwise every write in an enclosing loop would "lie between" the two)
+        after = g.cfg.reachable_from(from_block)
         for kb, kidx, kind in g._killers(place):
-            if kb in g.cfg.reachable_from(from_block) and to_block in g.cfg.reachable_from(kb) and kb != from_block:
+            if kb != from_block and kb in after and to_block in g.cfg.reachable_from(kb, removed_nodes=(from_block,)):
                 return True
         return False
 
